@@ -504,7 +504,7 @@ func runC01(c *chk.Ctx) {
 			json.Unmarshal(e[0], &m)
 			fam["c01bytes_states"] = m["states"]
 			if capped, _ := m["capped"].(bool); capped {
-				c.Incomplete = append(c.Incomplete, fmt.Sprintf("byte family: state cap %d reached (the scanner's control state could not be read after most prefixes)", c01MaxStates))
+				c.Incomplete = append(c.Incomplete, fmt.Sprintf("byte family: state cap %d reached: the first %[1]d distinct scanner states in breadth-first order were expanded, deeper ones were not", c01MaxStates))
 			}
 		}
 	}
